@@ -124,7 +124,12 @@ func newC20World() *c20World {
 			v.Subresources = &apiextensionsv1.CustomResourceSubresources{Status: &apiextensionsv1.CustomResourceSubresourceStatus{}}
 		}
 		return &apiextensionsv1.CustomResourceDefinition{ObjectMeta: metav1.ObjectMeta{Name: res + ".ex.io"},
-			Spec: apiextensionsv1.CustomResourceDefinitionSpec{Group: "ex.io", Names: apiextensionsv1.CustomResourceDefinitionNames{Plural: res, Kind: kind}, Versions: []apiextensionsv1.CustomResourceDefinitionVersion{v}}}
+			// served in two versions, the older one listed first (both with the same subresources)
+			Spec: apiextensionsv1.CustomResourceDefinitionSpec{Group: "ex.io", Names: apiextensionsv1.CustomResourceDefinitionNames{Plural: res, Kind: kind}, Versions: []apiextensionsv1.CustomResourceDefinitionVersion{func() apiextensionsv1.CustomResourceDefinitionVersion {
+				old := *v.DeepCopy()
+				old.Name, old.Storage = "v1beta1", false
+				return old
+			}(), v}}}
 	}
 	k8s := fake.NewClientBuilder().WithScheme(scheme).WithObjects(crd("things", "Thing", true), crd("nothings", "NoThing", false)).Build()
 	ctx := common.ControllerContext{K8sClient: k8s, Resources: b.Resources, DynClient: b.DynClient, DynInformers: b.Factory,
